@@ -1,5 +1,6 @@
 """C08 - civil date/time arithmetic follows the documented rules (narrow): pipeline of Date::checked_add_span,
 range errors through checked epoch-day arithmetic, saturating tables, wrap-then-modulo (E2)."""
+from ..rules_r5 import day_succ
 import os
 from .. import mir
 from ..term import Terms, show, alts, is_call, walk, match, V, C, TRY
@@ -20,6 +21,7 @@ def run(ctx, rep):
     prog = ctx.prog("Q")
     ym_pair(rep, prog, floor=15)
     run_partsign(ctx, rep)
+    day_succ(rep, ctx.prog("Q"))
     rep.notes.append("Does not decide equality with wide-integer reference arithmetic in general.")
     pipeline(rep, prog)
     saturating(rep, prog)
